@@ -142,8 +142,26 @@ func ruleLiteralAgreement(id, pkgShort string, keep func(typeName string) bool) 
 func ruleMapFieldsMade(id string) func(*Checker) {
 	return func(c *Checker) {
 		c.rule(id, "Every map-typed field of a module struct into which some function of the module stores (`x.f[k] = v`) is given a made map in every composite literal of that struct that sets at least one field (the constructors NewBuilder and OpenDir): a field left out of the literal is a nil map, and the first store into it panics — for the builder on the first package whose fetcher returns metadata, for OpenDir on the first manifest that carries a commit id.", 4)
+		// a store into a nil map panics whichever way the program is looked at: both forms must be clean (in the
+		// inlined form a field that only new code touches reads as zero and its stores vanish)
+		c.absence(id)
 		p := c.P
 		written := map[*types.Var]string{}
+		// a map made on the spot where it is first needed (`if m.f == nil { m.f = make(…) }; m.f[k] = v`) is not
+		// the constructors' business
+		lazilyMade := func(fn *ssa.Function, f *types.Var) bool {
+			made := false
+			eachInstr(fn, func(in ssa.Instruction) {
+				if st, ok := in.(*ssa.Store); ok {
+					if fa, ok := st.Addr.(*ssa.FieldAddr); ok && fieldOf(fa) == f {
+						if _, isMk := canon(st.Val).(*ssa.MakeMap); isMk {
+							made = true
+						}
+					}
+				}
+			})
+			return made
+		}
 		for _, fn := range p.Funcs {
 			if !p.InModule(fn) {
 				continue
@@ -158,23 +176,65 @@ func ruleMapFieldsMade(id string) func(*Checker) {
 					return
 				}
 				if fa, ok := ld.X.(*ssa.FieldAddr); ok {
-					if f := fieldOf(fa); f != nil {
+					if f := fieldOf(fa); f != nil && !lazilyMade(fn, f) {
 						written[f] = p.Pos(mu.Pos())
 					}
 				}
 			})
 		}
 		n := 0
-		for _, s := range p.literalSites() {
-			if len(s.fields) == 0 {
+		// which functions store into which map field (directly): an empty literal matters when it is handed to one
+		writers := map[*types.Var]map[*ssa.Function]bool{}
+		for _, fn := range p.Funcs {
+			if !p.InModule(fn) {
 				continue
 			}
+			eachInstr(fn, func(in ssa.Instruction) {
+				if mu, ok := in.(*ssa.MapUpdate); ok {
+					if ld, ok := mu.Map.(*ssa.UnOp); ok && ld.Op == token.MUL {
+						if fa, ok := ld.X.(*ssa.FieldAddr); ok && fieldOf(fa) != nil {
+							if writers[fieldOf(fa)] == nil {
+								writers[fieldOf(fa)] = map[*ssa.Function]bool{}
+							}
+							writers[fieldOf(fa)][outerFn(p, fn)] = true
+						}
+					}
+				}
+			})
+		}
+		for _, s := range p.literalSites() {
 			st := s.typ.Underlying().(*types.Struct)
+			if len(s.fields) == 0 {
+				// a literal that sets nothing (`&Meta{}`): it counts when the function that makes it reaches a
+				// function that stores into one of its map fields — the value starts its life here with a nil map
+				used := false
+				for i := 0; i < st.NumFields(); i++ {
+					for w := range writers[st.Field(i)] {
+						if w == outerFn(p, s.fn) || p.reach(outerFn(p, s.fn))[w] {
+							used = true
+						}
+					}
+				}
+				if !used {
+					continue
+				}
+			}
 			for i := 0; i < st.NumFields(); i++ {
 				f := st.Field(i)
 				at, isW := written[f]
 				if !isW {
 					continue
+				}
+				if len(s.fields) == 0 {
+					reaches := false
+					for w := range writers[f] {
+						if w == outerFn(p, s.fn) || p.reach(outerFn(p, s.fn))[w] {
+							reaches = true
+						}
+					}
+					if !reaches {
+						continue
+					}
 				}
 				n++
 				made := false
@@ -4028,4 +4088,186 @@ func drainEntry(p *Prog) *ssa.Function {
 		}
 	}
 	return best
+}
+
+// ---- round 19 ----
+
+// ruleNoRunTimeGlobals — the bundle package keeps nothing between calls.
+func ruleNoRunTimeGlobals(id string) func(*Checker) {
+	return func(c *Checker) {
+		c.rule(id, "Outside package initialisers, no function of the bundle package stores into a package-level variable, updates a package-level map, or calls a writing method of package sync (Store, LoadOrStore, Swap, Delete, CompareAndSwap, Do) on one; and OpenDir returns a Bundle it allocated in that very call. A table of opened bundles keyed by the manifest's bytes hands the bundle of one directory to whoever opens another directory with the same manifest: lookups answer with paths under the wrong root.", 1)
+		c.absence(id)
+		p := c.P
+		for _, fn := range p.Funcs {
+			if !inBundlePkg(p, fn) || isInitFunc(fn) {
+				continue
+			}
+			name := p.FuncName(fn)
+			eachInstr(fn, func(in ssa.Instruction) {
+				switch x := in.(type) {
+				case *ssa.Store:
+					if g, ok := x.Addr.(*ssa.Global); ok && g.Pkg != nil && g.Pkg.Pkg.Path() == p.PkgPath(bundlePkg) {
+						c.fail(id, name, "store into package variable "+g.Name(), p.Pos(x.Pos()), "a package-level variable of the bundle package is assigned at run time")
+					}
+				case *ssa.MapUpdate:
+					if ld, ok := x.Map.(*ssa.UnOp); ok {
+						if g, ok := ld.X.(*ssa.Global); ok && g.Pkg != nil && g.Pkg.Pkg.Path() == p.PkgPath(bundlePkg) {
+							c.fail(id, name, "update of package map "+g.Name(), p.Pos(x.Pos()), "a package-level table of the bundle package is filled at run time: what one call learns, another call is answered with")
+						}
+					}
+				case ssa.CallInstruction:
+					cm := x.Common()
+					if cm.IsInvoke() || len(cm.Args) == 0 {
+						return
+					}
+					g, ok := cm.Args[0].(*ssa.Global)
+					if !ok || g.Pkg == nil || g.Pkg.Pkg.Path() != p.PkgPath(bundlePkg) {
+						return
+					}
+					o := calleeObj(x)
+					if o == nil || objPkgPath(o) != "sync" {
+						return
+					}
+					switch o.Name() {
+					case "Store", "LoadOrStore", "Swap", "Delete", "LoadAndDelete", "CompareAndSwap", "CompareAndDelete", "Do":
+						c.fail(id, name, "sync."+o.Name()+" on package variable "+g.Name(), p.Pos(x.Pos()), "process-wide state of the bundle package is written by a call: what one call learns, another call is answered with")
+					}
+				}
+			})
+		}
+		// OpenDir hands out what it made
+		open := p.Fn(bundlePkg, "OpenDir")
+		if open == nil {
+			c.anchorMissing(id, "OpenDir")
+			return
+		}
+		n := 0
+		for i, r := range successReturns(open) {
+			for _, v := range returnValues(r, 0) {
+				if v == nil {
+					continue
+				}
+				n++
+				fresh := freshlyMade(p, v, 0)
+				c.check(fresh, id, p.FuncName(open), fmt.Sprintf("success return %d hands out a bundle made in this call", i), p.Pos(r.Pos()), "the returned *Bundle is allocated in OpenDir", "OpenDir can hand out a *Bundle it did not make in this call (one remembered from an earlier call): its root directory is the earlier call's")
+			}
+		}
+		c.check(n > 0, id, p.FuncName(open), "success returns", p.Pos(open.Pos()), fmt.Sprintf("%d value(s)", n), "OpenDir has no success return")
+	}
+}
+
+// ruleTypeSchemeRefusalOnlyForStrings — the constructor does not refuse a type for being spelled like the scheme.
+func ruleTypeSchemeRefusalOnlyForStrings(id string) func(*Checker) {
+	return func(c *Checker) {
+		c.rule(id, "In what the exported constructor MakeRemoteSource reaches, a comparison of the source type with the URL's scheme does not decide between accepting and refusing: where one of its edges leads only to error returns, so does the other (the two `unsupported …` messages). `https::https://…` is a spelling the string parser refuses as redundant; (\"https\", https URL) is how the constructor is given every archive address, including the parts of an address the parser itself produced.", 0)
+		p := c.P
+		mk := p.Fn(addrPkg, "MakeRemoteSource")
+		if mk == nil {
+			c.anchorMissing(id, "MakeRemoteSource")
+			return
+		}
+		for _, fn := range sortedFuncs(p.reach(mk)) {
+			if fn.Package() == nil || fn.Package().Pkg.Path() != p.PkgPath(addrPkg) {
+				continue
+			}
+			for _, b := range fn.Blocks {
+				ifi, ok := b.Instrs[len(b.Instrs)-1].(*ssa.If)
+				if !ok {
+					continue
+				}
+				cnd, _ := stripNot(ifi.Cond)
+				bo, ok := cnd.(*ssa.BinOp)
+				if !ok || (bo.Op != token.EQL && bo.Op != token.NEQ) {
+					continue
+				}
+				isScheme := func(v ssa.Value) bool {
+					f := loadedField(v)
+					return f != nil && f.Name() == "Scheme"
+				}
+				isType := func(v ssa.Value) bool {
+					if _, isC := v.(*ssa.Const); isC {
+						return false
+					}
+					return isStringType(v.Type()) && !isScheme(v)
+				}
+				if !((isScheme(bo.X) && isType(bo.Y)) || (isScheme(bo.Y) && isType(bo.X))) {
+					continue
+				}
+				// behind the not-registered edge of the type lookup both ways refuse anyway: the test only picks the message
+				var miss []Edge
+				for _, b2 := range fn.Blocks {
+					if i2, ok := b2.Instrs[len(b2.Instrs)-1].(*ssa.If); ok {
+						c2, neg2 := stripNot(i2.Cond)
+						if ex, ok := c2.(*ssa.Extract); ok && ex.Index == 1 {
+							if lk, ok := ex.Tuple.(*ssa.Lookup); ok && lk.CommaOk {
+								k := 1
+								if neg2 {
+									k = 0
+								}
+								miss = append(miss, Edge{b2, k})
+							}
+						}
+					}
+				}
+				if len(miss) > 0 && guarded(b, miss) {
+					c.pass(id, p.FuncName(fn), "type-versus-scheme test does not decide acceptance", p.Pos(ifi.Cond.Pos()), "made only where the type is not registered: it picks the message")
+					continue
+				}
+				r0, _ := returnsNonNilErrorFrom(b.Succs[0])
+				r1, _ := returnsNonNilErrorFrom(b.Succs[1])
+				c.check(r0 == r1, id, p.FuncName(fn), "type-versus-scheme test does not decide acceptance", p.Pos(ifi.Cond.Pos()), "both edges refuse, or neither does", "on the route of the constructor an address is refused because its source type is spelled like its URL scheme: MakeRemoteSource(\"https\", https URL, …) — every archive address given in parts — fails")
+			}
+		}
+	}
+}
+
+// outerFn: the named function a function literal is nested in (itself for a named function).
+func outerFn(p *Prog, fn *ssa.Function) *ssa.Function {
+	for fn != nil && fn.Parent() != nil {
+		fn = fn.Parent()
+	}
+	return fn
+}
+
+// freshlyMade: v is an allocation of the function it is in, or the result of a module function all of whose
+// success results are.
+func freshlyMade(p *Prog, v ssa.Value, depth int) bool {
+	v = canon(v)
+	if _, ok := v.(*ssa.Alloc); ok {
+		return true
+	}
+	if ph, ok := v.(*ssa.Phi); ok && depth < 4 {
+		for _, e := range ph.Edges {
+			if !freshlyMade(p, e, depth+1) {
+				return false
+			}
+		}
+		return true
+	}
+	idx := 0
+	if ex, ok := v.(*ssa.Extract); ok {
+		idx = ex.Index
+		v = ex.Tuple
+	}
+	cl, ok := v.(*ssa.Call)
+	if !ok || depth > 3 {
+		return false
+	}
+	g := cl.Call.StaticCallee()
+	if g == nil || !p.InModule(g) || len(g.Blocks) == 0 {
+		return false
+	}
+	n := 0
+	for _, r := range successReturns(g) {
+		for _, rv := range returnValues(r, idx) {
+			if rv == nil {
+				continue
+			}
+			n++
+			if !freshlyMade(p, rv, depth+1) {
+				return false
+			}
+		}
+	}
+	return n > 0
 }
